@@ -135,7 +135,7 @@ NewM(d, opt, stored, provs) ==
      queue |-> IF stored = "" THEN <<InitTD>> ELSE <<>>,
      locked |-> FALSE, stack |-> <<>>, raising |-> FALSE, exc |-> NoExc, out |-> NoOut,
      qid |-> 1, gv |-> NoGV, opt |-> opt, provs |-> provs, async |-> IsAsync(d, provs),
-     budget |-> 0, ninv |-> 0, ctor |-> TRUE]
+     budget |-> 0, ninv |-> 0, ctor |-> TRUE, tag |-> ""]
 
 Top(m)       == m.stack[Len(m.stack)]
 SetTop(m, f) == [m EXCEPT !.stack = [m.stack EXCEPT ![Len(m.stack)] = f]]
@@ -345,6 +345,9 @@ DoWriteSetter(d, m, v) ==
     ELSE [m EXCEPT !.out = ExcOut(ISV(v))]
 \* setattr(model, state_field, v) behind the machine's back: whatever is written is the truth
 DoWriteModel(d, m, v) == [m EXCEPT !.cur = v, !.out = RetOut(NoRes)]
+\* sm.<custom attribute> = v : user data kept on the machine object (an opaque tag here); nothing in the engine reads it,
+\* a copy carries it along
+DoSetTag(d, m, v) == [m EXCEPT !.tag = v, !.out = RetOut(NoRes)]
 \* sm.add_listener(p) : set semantics
 DoAddListener(d, m, p) == [m EXCEPT !.provs = @ \cup {p}, !.out = RetOut(NoRes)]
 
